@@ -147,7 +147,7 @@ func oracleC03B(p *Plan, res *Result) *common.Fail {
 		}
 		if sockFailed {
 			for _, a := range acks {
-				if a.ch == ch && !a.consumed && a.a >= s.t0 && a.a < s.ret {
+				if !a.consumed && a.a >= s.t0 && a.a < s.ret {
 					a.consumed = true // taken and ignored while the Send was waiting
 				}
 			}
@@ -244,6 +244,26 @@ func oracleC03B(p *Plan, res *Result) *common.Fail {
 				c.a.consumed = true
 			case c.tau == s.ret:
 				c.a.uncertain = true
+			}
+		}
+		// acknowledgements of another connection that were still on offer (the hand-over goroutine keeps one for a resend
+		// interval, whatever happens to the connection meanwhile) are taken and ignored by the waiting Send like any
+		// other that does not match: they are gone afterwards, also when a later connection gets their channel number again
+		if ph != phTerminated {
+			for _, a := range acks {
+				if a.ch == ch || a.consumed || a.a+r < s.t0 || a.a > s.ret {
+					continue
+				}
+				tau := a.a
+				if tau < s.t0 {
+					tau = s.t0
+				}
+				switch {
+				case tau < s.ret:
+					a.consumed = true
+				case tau == s.ret:
+					a.uncertain = true
+				}
 			}
 		}
 		if decider != nil {
